@@ -480,6 +480,42 @@ func pollersScenario(kind string, items, pollers, bound int) *vsched.Scenario {
 	}
 }
 
+// parkedProducerScenario: an unbuffered ChannelQueue whose producer is parked in Put: the value is immediately
+// available, so a consumer that only Polls gets it (Poll may report empty only while nothing is on offer).
+func parkedProducerScenario(bound int) *vsched.Scenario {
+	fam := "channel-unbuffered-poll"
+	return &vsched.Scenario{
+		Name:  "channelqueue/cap0/parked-put-then-poll",
+		Bound: bound,
+		Body: func() {
+			q := fpgo.NewChannelQueue[int](0)
+			vsched.GoNamed("producer", func() {
+				vsched.Event("put", errName(q.Put(5)))
+			})
+			for i := 0; i < 3; i++ {
+				time.Sleep(time.Millisecond) // the producer is parked in Put by now (virtual time passes at quiescence only)
+				v, err := q.Poll()
+				vsched.Event("polled", i, v, errName(err))
+				if err == nil {
+					return
+				}
+			}
+			vsched.Event("gave-up")
+			q.Take() // release the producer so that the scenario ends
+		},
+		Check: func(r *vsched.Result) []vsched.Failure {
+			fs := e1.Basic("C07", fam, r, nil)
+			if len(fs) > 0 {
+				return fs
+			}
+			if e1.Count(r, "gave-up") > 0 || e1.Count(r, "polled", 0, 5, "nil") != 1 {
+				fs = append(fs, e1.Fail("C07|"+fam+"|spurious-empty", "a producer is parked in Put on an unbuffered ChannelQueue; Poll answered %v", r.Events))
+			}
+			return fs
+		},
+	}
+}
+
 // payloadScenario: what the queue carries is opaque to it. One producer offers the given values (nil, typed
 // nil pointers, zero values, equal neighbours, equal-but-distinct pointers ...) into a queue whose channel
 // holds one of them and whose overflow buffer takes the rest; the driver then takes them all back: the
@@ -547,6 +583,7 @@ func scenarios(tier string) []*vsched.Scenario {
 	for c := 0; c <= 2; c++ {
 		out = append(out, chanScenario(c, 2))
 	}
+	out = append(out, parkedProducerScenario(1))
 	for _, kind := range []string{"channelqueue", "bufferedchannelqueue"} {
 		out = append(out, pollersScenario(kind, 1, 2, 2), pollersScenario(kind, 2, 3, 2), pollersScenario(kind, 0, 2, 1))
 	}
